@@ -304,6 +304,32 @@ pub fn run(prop: &'static str, tier: Tier) -> ! {
         families.push(json!({"family": "repetition shapes: (inner)rep for 5 inner patterns x {*,+,?,{m},{m,},{m,n} | 0<=m<=n<=3} x 7 contexts", "configurations": shapes.len(), "exhaustive": true}));
     }
 
+    // 3a'. branching family: every ordered pair of branch patterns as one alternation (one token
+    // type), as two patterns with distinct and with equal token types
+    {
+        let br = refsem::families::branch_patterns();
+        let n = br.len() * br.len();
+        let accs = par_for(n, 64, || Acc { samples: Samples::new(1), ..Default::default() }, |acc, i| {
+            let (p, q) = (&br[i / br.len()], &br[i % br.len()]);
+            if p == q {
+                return;
+            }
+            let variants = [
+                Cfg::single(vec![CPat::new(&format!("{p}|{q}"), 3)]),
+                Cfg::single(vec![CPat::new(p, 0), CPat::new(q, 1)]),
+                Cfg::single(vec![CPat::new(p, 4), CPat::new(q, 4), CPat::new("[abxyz]", 0)]),
+            ];
+            for cfg in &variants {
+                let o = check_cfg(cfg, &tables, do02, do03, do02, true);
+                absorb(acc, prop, cfg, "branches", o);
+            }
+        });
+        for a in accs {
+            merge(&mut total, a);
+        }
+        families.push(json!({"family": "branching: all ordered pairs of prefix+body patterns (prefix a|b; bodies s, (s)*, (s)+, (s|t), (s|t)*, (s)*t over 6 short strings) as `P|Q`, as two patterns with distinct token types and as two patterns sharing one token type", "branch_patterns": br.len(), "pairs": n, "exhaustive": true}));
+    }
+
     // 3b. class pairs: every ordered pair of near-identical class atoms in one scanner
     {
         let menu = refsem::families::class_menu();
